@@ -229,6 +229,12 @@ def _func_case(draw, tier):
         _logint(10 ** 6, POS_CAP), st.sampled_from(_SPECIAL_POS)))
     chunks = draw(st.lists(st.one_of(st.integers(1, 8), st.integers(1, 200)),
                            min_size=1, max_size=5))
+    if draw(st.integers(0, 19)) == 7:
+        # a long request to the module-level function, many rays and a
+        # shape (L * prod(shape) * n above 2**20)
+        L = draw(st.sampled_from([8, 16]))
+        shape = draw(st.sampled_from([[2, 2], [3, 2], [4, 4]]))
+        chunks = [draw(_logint(20000, 40000))] + chunks[:1]
     return dict(part="func", Fd=fdts / ts, Ts=ts, L=L, shape=shape,
                 seed=draw(seeds), start=start, chunks=chunks)
 
@@ -249,6 +255,10 @@ def _bigreq(draw, tier):
     ops.append(["gen", draw(_logint(5000, 10 ** 5))])
     if draw(st.booleans()):
         ops.append(["gen", draw(_logint(1000, 40000))])
+    if draw(st.integers(0, 5)) == 3:
+        # an output of more than 2**20 coefficients (few rays, TDL-like shape)
+        L, shape = 4, [4, 4]
+        ops = [["gen", draw(st.integers(66000, 90000))]]
     return dict(part="bigreq", Fd=fdts / ts, Ts=ts, L=L, shape=shape,
                 seed=draw(seeds), ops=ops, twin=draw(st.booleans()))
 
@@ -359,6 +369,9 @@ def _check_block(case, ctx, g, block, want_shape, k0, n, phi, psi, state,
                         "%s request of %d samples at position %d returned "
                         "shape %r, expected %r" %
                         (role, n, k0, block.shape, want_shape + (n,)), tags)
+    if block.dtype != np.complex128:
+        raise Violation("sample_dtype", "samples have dtype %s (double "
+                        "precision complex expected)" % block.dtype, tags)
     if not np.iscomplexobj(block) or not np.all(np.isfinite(block)):
         raise Violation("finite_complex", "dtype %s / non-finite samples" %
                         block.dtype, tags)
@@ -437,7 +450,10 @@ def _check_hist(case, ctx):
         elif op[0] == "spawn":
             tags = _tags(case, 0, 1, "spawn")
             # the new generator draws its phases from numpy's global RNG
-            np.random.seed(int(case["seed"]) % (2 ** 32))
+            # (another seed than the parent's own generator got, so that the
+            # child's phases cannot coincide with the parent's by construction)
+            n_spawn = state.get("n_spawn_total", 0) + 1
+            np.random.seed((int(case["seed"]) + n_spawn) % (2 ** 32))
             parent = g
             g = _call(lambda: parent.get_similar_fading_generator(), tags)
             if not isinstance(g, JakesSampleGenerator) or g is parent:
@@ -447,9 +463,16 @@ def _check_hist(case, ctx):
                 raise Violation("spawn_shape", "similar generator has shape "
                                 "%r, the parent %r" % (g.shape, parent.shape),
                                 tags)
+            pphi = np.asarray(parent._phi_l)
             phi, psi = observe(g, cur_shape, tags)
+            if np.shares_memory(g._phi_l, parent._phi_l) or (
+                    pphi.shape == phi.shape and pphi.size > 0 and
+                    np.array_equal(pphi, phi)):
+                raise Violation("spawn_same_phases", "the similar generator "
+                                "has the phases of its parent (documented: "
+                                "independent samples)", tags)
             state.clear()
-            state.update(generated=1, ops=1)
+            state.update(generated=1, ops=1, n_spawn_total=n_spawn)
             # like any new generator it has emitted sample number 0
             _check_block(case, ctx, g, g.get_samples(), cur_shape, 0, 1, phi,
                          psi, state, "spawn")
